@@ -175,55 +175,5 @@ fn k02_packet_header_decode_len5() {
     k02_short::<5>();
 }
 
-/// K02 (C05/C17): every header the parser accepts from a 6-octet prefix is written back by
-/// `to_writer` with exactly `write_len()` octets; for the OpenPGP format and for legacy headers
-/// whose length type is the minimal one for the value, the octets written are the octets parsed
-/// (number consumed and content).
-/// (Known finding U04/R, not re-asserted here: a legacy header with a NON-minimal length type, e.g.
-/// `8A 00 00 00 05`, is written as `8A 05`; `write_len()` agrees with that shorter output.)
-/// Complete over all 2^48 prefixes.
-#[kani::proof]
-#[kani::unwind(7)]
-#[kani::stub(alloc::fmt::format, k02_no_format)]
-fn k02_packet_header_write_back_all_6_octet_prefixes() {
-    let bytes: [u8; 6] = kani::any();
-    let mut rd: &[u8] = &bytes[..];
-    let h = match PacketHeader::try_from_reader(&mut rd) {
-        Ok(h) => h,
-        Err(_) => return,
-    };
-    let consumed = 6 - rd.len();
-    let mut w = Sink::new();
-    let r = h.to_writer(&mut w);
-    assert!(r.is_ok(), "to_writer failed on an infallible sink");
-    assert!(h.write_len() == w.len, "PacketHeader::write_len() != octets written");
-    // minimal legacy length type for the value (RFC 9580 4.2.2: 0 = 1 octet, 1 = 2, 2 = 4)
-    let legacy = bytes[0] & 0x40 == 0;
-    let minimal = if !legacy {
-        true
-    } else {
-        match (bytes[0] & 3, h.packet_length()) {
-            (0, _) | (3, _) => true,
-            (1, PacketLength::Fixed(l)) => l >= 256,
-            (2, PacketLength::Fixed(l)) => l >= 65536,
-            _ => false,
-        }
-    };
-    // OpenPGP-format lengths have non-minimal encodings too (C0 FF 00 00 00 05): the value decides
-    let minimal_new = match (legacy, bytes[1], h.packet_length()) {
-        (false, 192..=223, PacketLength::Fixed(_)) => true, // two-octet values are always >= 192
-        (false, 255, PacketLength::Fixed(l)) => l >= 8384,
-        _ => true,
-    };
-    if minimal && minimal_new {
-        assert!(w.len == consumed, "header written with a different number of octets than parsed");
-        let j: usize = kani::any();
-        if j < consumed {
-            assert!(w.buf[j] == bytes[j], "header octets written differ from the octets parsed");
-        }
-    }
-    kani::cover!(bytes[0] == 0xC2 && bytes[1] == 0xFF && w.len == 6);
-    kani::cover!(bytes[0] == 0x89 && w.len == 3);
-    kani::cover!(bytes[0] == 0xCB && bytes[1] == 0xE9 && w.len == 2);
-    kani::cover!(legacy && !minimal);
-}
+// Dropped: a write-back harness (`to_writer` + `write_len` on every parsed header, crate Result +
+// `debug!` formatting of the header) did not finish in 15 minutes.
